@@ -117,4 +117,10 @@ CLAIMS = {
         "note": "Partial by nature: the theorems are about the protocol model; conformance of the real locks under the real scheduler is sampled. Deadlock freedom is proved only in the one-lock abstraction (T15.4), not over the full lock order of the store.",
         "technique": "Lean 4 theorems (invariant over all interleavings of the lock-protocol LTS) + threaded stress with stamp / winner-chain oracles under a watchdog",
     },
+    "C16": {
+        "text": "Byte-level decoders of every on-disk format written in Lean from the layouts, independent of nomt's read path (meta, leaf, branch with prefix compression, overflow cells/pages, free lists, hash-table meta bytes and buckets with seeded XXH3-64 probe positions, merkle pages and labels, WAL, rollback segments), plus wfImage / wfTable / checkMerkle. Kernel-checked: decoder/encoder round trips (meta, overflow cell, free-list page, record header); T16.1 an accepted image's abstraction has strictly increasing keys, no key twice, every key in exactly one leaf; T16.lookup routing by separators + leaf search = lookup in the abstraction (T1.6). The Lean driver decodes the REAL directory after every commit / rollback / reopen of generated histories and requires: well-formed, abstraction = committed map (value length + Blake3 of every value), every reachable node of every stored merkle page = nodeAt, elision rule, table well-formed. Found F13/F14 (branch separators corrupted by mis-sized bitwise_memcpy sources: committed keys read back absent / commit panic), both repaired.",
+        "design_ref": "§4 C16",
+        "note": "Trusted: Lean kernel; decoders are hand-written (tied by decoding real directories); leaf/branch encoder round trips and the ownership walk as a whole are not theorems; crash images are covered by C03/C04 through the API, not by the decoder.",
+        "technique": "Lean 4 theorems on the image decoder (sortedness, single-leaf, lookup = abstraction, codec round trips) + the decoder/monitor evaluated by the Lean driver on real directories",
+    },
 }
